@@ -36,6 +36,7 @@ type Frame struct {
 	curLockArg ssa.Value
 	ifaceModSet *ModSet
 	curFv    *Val
+	curAddr  ssa.Value
 }
 
 type edgeIn struct {
